@@ -195,6 +195,11 @@ func (c *VCtx) strConst(s string) Term {
 	t := c.fresh(fmt.Sprintf("str_%d", len(c.strConsts)), SStr)
 	// distinct from earlier constants, known length
 	c.decls = append(c.decls, fmt.Sprintf("(assert (= (strlen %s) %d))", t.S, len(s)))
+	if len(s) <= 64 {
+		for i := 0; i < len(s); i++ {
+			c.decls = append(c.decls, fmt.Sprintf("(assert (= (str_at %s %d) %d))", t.S, i, s[i]))
+		}
+	}
 	for o, ot := range c.strConsts {
 		if o != s {
 			c.decls = append(c.decls, fmt.Sprintf("(assert (not (= %s %s)))", t.S, ot.S))
@@ -722,6 +727,22 @@ func (e *SpecEnv) quant(kind string, x *ast.CallExpr) Val {
 		tn := exprString(args[0])
 		if tn == "mathint" {
 			mathint = true
+		} else if tn == "string" {
+			// quantification over all strings: forall(string, s, 0, inf, body)
+			id, ok := args[1].(*ast.Ident)
+			if !ok {
+				return e.fail("quantifier variable must be an identifier")
+			}
+			bn := st.c.boundName(id.Name)
+			sub := e.with(map[string]Val{id.Name: Scalar{Term{bn, SStr}, types.Typ[types.String]}})
+			body := sub.boolTerm(args[4])
+			if sub.err != nil && e.err == nil {
+				e.err = sub.err
+			}
+			if kind == "forall" {
+				return Scalar{mkForall(fmt.Sprintf("(%s Str)", bn), body), types.Typ[types.Bool]}
+			}
+			return Scalar{Term{fmt.Sprintf("(exists ((%s Str)) %s)", bn, body.S), SBool}, types.Typ[types.Bool]}
 		} else {
 			bk, ok := basicKindByName[tn]
 			if !ok {
